@@ -33,6 +33,9 @@ def run(prop, tier, seed, work):
     if prop == "C12":
         import checks_tags
         return checks_tags.run(prop, tier, seed, work)
+    if prop == "C08":
+        import checks_conc
+        return checks_conc.run(prop, tier, seed, work)
     raise vlib.MachineryError("no check for " + prop)
 
 
